@@ -2,6 +2,7 @@ package expr
 
 import (
 	"fmt"
+	"reflect"
 	"strings"
 
 	"goa.design/goa/v3/eval"
@@ -220,7 +221,7 @@ func (a *AttributeExpr) Validate(ctx string, parent eval.Expression) *eval.Valid
 		}
 		var pkgPath string
 		if ut, ok := a.Type.(UserType); ok {
-			if meta, ok := ut.Attribute().Meta["struct:pkg:path"]; ok {
+			if meta, ok := ut.Attribute().Meta["struct:pkg:path"]; ok && len(meta) > 0 {
 				pkgPath = meta[0]
 			}
 		}
@@ -356,7 +357,7 @@ func (a *AttributeExpr) validatePkgPath(pkgPath string, t DataType) *eval.Valida
 		// This check ensures we error if a sub-type has a different custom package type set
 		// or if two user types have different custom packages but share a sub-type (field that's a user type)
 		if ut.Attribute().Meta != nil &&
-			ut.Attribute().Meta["struct:pkg:path"] != nil &&
+			len(ut.Attribute().Meta["struct:pkg:path"]) > 0 &&
 			ut.Attribute().Meta["struct:pkg:path"][0] != pkgPath {
 			verr.Add(a, "type \"%s\" has conflicting packages %s and %s", ut.Name(), ut.Attribute().Meta["struct:pkg:path"][0], pkgPath)
 		}
@@ -378,7 +379,7 @@ func (a *AttributeExpr) Finalize() {
 	var pkgPath string
 	if ut, ok := a.Type.(UserType); ok {
 		ut.Finalize()
-		if meta, ok := ut.Attribute().Meta["struct:pkg:path"]; ok {
+		if meta, ok := ut.Attribute().Meta["struct:pkg:path"]; ok && len(meta) > 0 {
 			pkgPath = meta[0]
 		}
 	}
@@ -788,7 +789,9 @@ func (a *AttributeExpr) validateEnumDefault(ctx string, parent eval.Expression) 
 	if a.DefaultValue != nil && a.Validation != nil && a.Validation.Values != nil {
 		var found bool
 		for _, e := range a.Validation.Values {
-			if e == a.DefaultValue {
+			// values of uncomparable types (e.g. []byte for Bytes or
+			// Any attributes) cannot be compared with ==
+			if reflect.DeepEqual(e, a.DefaultValue) {
 				found = true
 				break
 			}
